@@ -235,6 +235,13 @@ def one_mode(job) -> Dict[str, Any]:
         from semantiva.execution.job_queue.worker import worker_loop
         from semantiva.logger import Logger
 
+        # ENVIRONMENT: the registry profile that travels with every job also names a module that cannot be imported in this
+        # process (an extension that is installed on the submitting host only)
+        try:
+            from semantiva.registry.processor_registry import ProcessorRegistry as _PR
+            _PR.register_modules(["vpkg_not_installed_here.ext"])
+        except Exception:
+            pass
         tr = im.InMemorySemantivaTransport()
         live["InMemorySemantivaTransport._queues(channel-table)"] = tr._queues
         lg = Logger()
@@ -250,6 +257,8 @@ def one_mode(job) -> Dict[str, Any]:
             fut = master.enqueue(nodes, data=NoDataType(), context=ContextType(dict(PROGRAM_CTX.get(prog, {}))), return_future=True)
             try:
                 fut.result(timeout=30)
+            except TimeoutError:
+                pass            # a job that never completes is C15's business; the residue left behind is measured all the same
             except Exception:
                 if prog != "failing":
                     raise
@@ -271,14 +280,33 @@ def one_mode(job) -> Dict[str, Any]:
         for _ in range(3):          # warm-up
             runner()
         done = 0
-        for cp in job["checkpoints"]:
-            while done < cp:
-                runner()
-                done += 1
+        import time as _time
+
+        def take_sample():
             cont = container_census(live)
             for k_, v_ in owned_containers(roots).items():
                 cont.setdefault(k_, v_)
-            samples[cp] = {"registry": registry_sizes(), "instances": instance_census(), "containers": cont}
+            return {"registry": registry_sizes(), "instances": instance_census(), "containers": cont}
+        durations: List[float] = []
+        stalled = None
+        for cp in job["checkpoints"]:
+            while done < cp and stalled is None:
+                t_ = _time.time()
+                runner()
+                d_ = _time.time() - t_
+                durations.append(d_)
+                done += 1
+                if done == 8:
+                    samples["early"] = take_sample()
+                if len(durations) > 10:
+                    med = sorted(durations[:10])[5]
+                    if d_ > max(20.0, 50.0 * med):
+                        # the statement itself: run N costs (hundreds of times) more than the first runs did
+                        stalled = {"at": done, "took": round(d_, 2), "median_of_first_runs": round(med, 4)}
+            if stalled is not None:
+                samples["stalled"] = dict(take_sample(), info=stalled)
+                break
+            samples[cp] = take_sample()
     finally:
         cleanup()
         _shutil.rmtree(_priv, ignore_errors=True)
@@ -332,6 +360,16 @@ def check(tier: str) -> int:
     pairs = 0
     for r in results:
         run.evaluations += cps[-1]
+        if "stalled" in r["samples"]:
+            info = r["samples"]["stalled"]["info"]
+            mode_ = r["mode"].replace("-traced", "").replace("cli", "fresh")
+            run.violation(f"run-cost-grows:{mode_}", f"program {r['prog']}, {r['mode']}: run {info['at']} took {info['took']} s, the first runs took "
+                          f"{info['median_of_first_runs']} s each -- the cost of run N depends on N", {"prog": r["prog"], "mode": r["mode"]})
+            if "early" in r["samples"]:
+                for kind, name, d in growth(r, "early", "stalled"):
+                    run.violation(f"{kind}-growth:{mode_}:{name}", f"program {r['prog']}, {r['mode']}: {kind} counter {name} grows by {d} between run 8 and run {info['at']}",
+                                  {"prog": r["prog"], "mode": r["mode"]})
+            continue
         g = growth(r, cps[1], cps[2])
         pairs += len(r["samples"][cps[1]]["registry"]) + len(r["samples"][cps[1]]["instances"])
         per_run = {}
